@@ -1,5 +1,6 @@
 import IronCalc.Book.BuildProofs
 import IronCalc.Eval.MemoProofs
+import IronCalc.Eval.SpillProofs
 /-
   C07 — Evaluation is deterministic and independent of editing order.
   Property theorems only.
@@ -110,3 +111,30 @@ example : (evaluateAll intOps wbC07 [0, 1, 2] (fun _ => .empty)).val 2
     (evaluateAll intOps wbC07 [0, 1, 2] (fun _ => .empty)).mark 2 = some .evaluated := by decide
 
 end IronCalc.Memo
+
+namespace IronCalc.Spill
+
+/-- the full statement for spills: the sheet after evaluating two dynamic anchors does not
+    depend on what an earlier evaluation left behind (i.e. on whether evaluation ran after
+    every edit or once at the end) -/
+def C07_full : Prop :=
+  ∀ (g : Grid Nat) (r c r' c' : Nat) (res res' res0 : Result Nat),
+    evalDyn ⟨1048576, 16384⟩ ⟨1001, 1002⟩
+        (evalDyn ⟨1048576, 16384⟩ ⟨1001, 1002⟩ g r c res) r' c' res' =
+    evalDyn ⟨1048576, 16384⟩ ⟨1001, 1002⟩
+        (evalDyn ⟨1048576, 16384⟩ ⟨1001, 1002⟩
+          (evalDyn ⟨1048576, 16384⟩ ⟨1001, 1002⟩ g r' c' res0) r c res) r' c' res'
+
+/-- F07b.  C1 = SEQUENCE(3) and B2 = SEQUENCE(1,2) both want C2.  Evaluated once at the end, C1
+    (first in natural order) takes it and B2 shows #SPILL!; if B2 was evaluated on its own
+    before C1 was typed, B2 owns C2, and C1 shows #SPILL! for ever after.  The faithful model
+    and the real engine agree: "first come, first served". -/
+theorem C07_full_false : ¬ C07_full := by
+  intro h
+  have := h (set (set (fun _ _ => .empty) 2 2 (.anchor .dyn 1 1 0)) 1 3 (.anchor .dyn 1 1 0))
+    1 3 2 2 (.array ⟨3, 1, fun _ _ => 0⟩) (.array ⟨1, 2, fun _ _ => 0⟩) (.array ⟨1, 2, fun _ _ => 0⟩)
+  have h2 := congrFun (congrFun this 1) 3
+  revert h2
+  decide
+
+end IronCalc.Spill
